@@ -44,6 +44,10 @@ func (x *Ctx) choose(n int, dev bool) int {
 	return c
 }
 
+// Replaying reports whether the execution is still inside the recorded prefix (states reached there were visited
+// by the parent execution; state-based pruning must not apply to them).
+func (x *Ctx) Replaying() bool { return len(x.trace) < len(x.prefix) }
+
 // Choices returns the choice sequence taken so far (for replay files).
 func (x *Ctx) Choices() []int {
 	out := make([]int, len(x.trace))
